@@ -1,11 +1,19 @@
 # C10 -- routing invokes the handler that the route table prescribes
 ROUTER = '/repo/src/server/router.cc'
-OFFSETS = ['harness/offsets_router.cc']
+OFFSETS = ['harness/offsets_router.cc', 'harness/offsets_http.cc']
+FIND_ = None
 FIND = '_ZNK8Pistache4Rest15SegmentTreeNode9findRouteERKSt17basic_string_viewIcSt11char_traitsIcEERSt6vectorINS0_10TypedParamESaIS9_EESC_'
 ROUTE = '_ZN8Pistache4Rest6Router5routeERKNS_4Http7RequestENS2_14ResponseWriterE'
-UNITS = {'route': dict(src=ROUTER, mode='sel', roots=[ROUTE]),
+RSTUBS = ['_ZN8Pistache4Http7MessageC2ERKS1_', '_ZN8Pistache4Http7MessageD2Ev', '_ZN8Pistache4Http14ResponseWriterD2Ev', '_ZN8Pistache4Rest7RequestD2Ev', '_ZN8Pistache4Http7RequestD2Ev',
+          '_ZN8Pistache4Rest15SegmentTreeNode16sanitizeResourceERKNSt7__cxx1112basic_stringIcSt11char_traitsIcESaIcEEE', '_ZNK8Pistache4Rest6Router21invokeNotFoundHandlerERKNS_4Http7RequestENS2_14ResponseWriterE',
+          '_ZNK8Pistache4Rest5Route13invokeHandlerIJNS0_7RequestENS_4Http14ResponseWriterEEEEvDpOT_', '_ZN8Pistache5Async7PromiseIlED2Ev', '_ZN8Pistache5Async7PromiseIlED0Ev']
+UNITS = {'route': dict(src=ROUTER, mode='sel', roots=[ROUTE], stubs=RSTUBS, selfcall={FIND: 'vp_rec_findRoute'}),
          'find': dict(src=ROUTER, mode='sel', roots=[FIND], selfcall={FIND: 'vp_rec_findRoute'})}
 HARNESSES = [
+  dict(name='router_route', units=['route'], file='c10_router.c', defs={'NPAR': 1, 'NT': 2, 'NMW': 1}, unwind=4, hunwind=34, timeout=1500,
+       thorough=dict(defs={'NPAR': 1, 'NT': 3, 'NMW': 2}, unwind=5, timeout=3000),
+       bound='route table of 0..2 (thorough 3) methods, each tree a root node of the find_step shape (children answer arbitrarily); normalised path empty or one segment of 1..2 bytes; any request method; 0..1 (thorough 2) middlewares and custom handlers with every outcome; not-found handler installed or not',
+       desc='Router::route: exactly one of {middleware stop, own-method route handler, custom handler, 405 with the exact Allow list, not-found handler, 404}, once; status says which'),
   dict(name='find_step', units=['find'], file='c10_route.c', defs={'NPAR': 2}, unwind=4, hunwind=34, timeout=1500,
        bound='ONE level of findRoute on an arbitrary node: <= 2 fixed, <= 2 parameter, <= 1 optional, optional splat child, optional route; keys/names/segment of 1..2 arbitrary bytes; lower path of <= 3 arbitrary bytes; <= 2 earlier bindings; children answer arbitrarily (induction hypothesis)',
        desc='findRoute step == reference: first succeeding alternative in the order fixed > parameter > optional > wildcard; exact bindings; failed lookups leave bindings untouched'),
